@@ -45,6 +45,32 @@ Theorem C29_metamodel_doc : forall w, gen metamodel_doc w -> drun DOut w = Some 
 Proof. exact metamodel_doc_quotes. Qed.
 Print Assumptions C29_metamodel_doc.
 
+(* ---- blocks: braces and brackets outside strings.  gstep refines the document machine: strings and attribute
+   lists only inside the graph block, attribute lists [ ] not nested and without braces, HTML strings only inside
+   attribute lists, the brace that returns to depth 0 ends the graph and only white space follows it.
+   Every text the translated DOT templates can produce is one such block (the subgraph blocks of the repository
+   path open and close inside it; _export_subgraph is translated as the sequence of its writes). *)
+Theorem C29_blocks_sound : forall t, doc_blocks_ok t = true -> forall w, gen t w -> grun g_start w = Some g_final.
+Proof. exact doc_blocks_sound. Qed.
+Print Assumptions C29_blocks_sound.
+
+Theorem C29_model_doc_blocks : forall w, gen model_doc w -> grun g_start w = Some g_final.
+Proof. exact model_doc_blocks. Qed.
+Print Assumptions C29_model_doc_blocks.
+
+Theorem C29_metamodel_doc_blocks : forall w, gen metamodel_doc w -> grun g_start w = Some g_final.
+Proof. exact metamodel_doc_blocks. Qed.
+Print Assumptions C29_metamodel_doc_blocks.
+
+Example C29_blocks_nonvacuous :
+  grun g_start [103; 32; 123; 97; 91; 108; 61; 34; 125; 34; 93; 123; 98; 125; 125; 10]%N = Some g_final   (* g {a[l="}"]{b}} *)
+  /\ grun g_start [103; 123; 97; 91; 91]%N = None            (* nested bracket *)
+  /\ grun g_start [103; 123; 125; 97]%N = None               (* text after the closing brace *)
+  /\ grun g_start [103; 123; 91; 123]%N = None               (* brace inside an attribute list *)
+  /\ doc_blocks_ok (TCat [TLit [103; 123]%N; TStar (TLit [125]%N)]) = false.
+Proof. vm_compute. repeat split; reflexivity. Qed.
+Print Assumptions C29_blocks_nonvacuous.
+
 (* ---- record labels (all nodes have shape=record): Graphviz reports "bad label format" and exits non-zero
    when a label's braces, pipes and angle brackets do not form a record.
    For every string, dot_escape and dot_repr expose no structuring character and leave no backslash behind
